@@ -204,7 +204,8 @@ func (p *policy) getMemSupply(node Node, cpus cpuset.CPUSet) (dram, pmem, hbm id
 		}
 	} else {
 		mems := p.getMemsForCpus(cpus)
-		dram, pmem, hbm = p.splitMemsByType(mems)
+		// nodes without memory do not belong to any pool's memory set (the root omits them, too)
+		dram, pmem, hbm = p.splitMemsByType(p.sys.FilterNodes(mems.SortedMembers(), system.NodeHasMemory))
 
 		if dram.Size() > 0 {
 			log.Info("    %s DRAM by CPU locality: %s", node.Name(), dram)
